@@ -247,6 +247,39 @@ pub fn cases(thorough: bool) -> Vec<Case> {
             add("ladder", t.replace("N", &n.to_string()));
         }
     }
+    // scale ladder: lists of distinct elements of every length N up to the bound - every index,
+    // the positions around the end, searches that succeed only at the last element
+    let top = if thorough { 300 } else { 130 };
+    for n in 1..=top {
+        let l = format!("'({})", (0..=n).map(|i| i.to_string()).collect::<Vec<_>>().join(" "));
+        for k in [n, n - 1, n / 2, n + 1] {
+            add("scale", format!("(list-ref {} {})", l, k));
+        }
+        for k in [n, n / 2, n + 1, n + 2] {
+            add("scale", format!("(list-tail {} {})", l, k));
+        }
+        add("scale", format!("(append {} '(x) {})", l, l));
+        add("scale", format!("(map (lambda (x) (tick x (- x))) {})", l));
+        add("scale", format!("(memv {} {})", n, l));
+        add("scale", format!("(memq 'z {})", l));
+        add("scale", format!("(last-pair {})", l));
+        add("scale", format!("(apply list {})", l));
+        add("scale", format!("(equal? {} (append {} '({})))", l, format!("'({})", (0..n).map(|i| i.to_string()).collect::<Vec<_>>().join(" ")), n));
+        add("scale", format!("(fold-left (lambda (a x) (tick x (- a x))) 0 {})", l));
+        add("scale", format!("(fold-right (lambda (x a) (tick x (- a x))) 0 {})", l));
+        add("scale", format!("(list? {})", l));
+        add("scale", format!("(cadr (list-tail {} {}))", l, n - 1));
+    }
+    // values of different types whose spelling coincides: never equivalent
+    for (a, b) in [("'b", "\"b\""), ("'|1|", "1"), ("\"1\"", "1"), ("#\\a", "'a"), ("#\\a", "\"a\""), ("'()", "'#()"), ("\"\"", "'||"), ("'nil", "'()"), ("#f", "'()"), ("0", "#f"), ("'|#t|", "#t")] {
+        for f in ["eqv?", "eq?", "equal?"] {
+            add("scale", format!("({} {} {})", f, a, b));
+            add("scale", format!("({} {} {})", f, b, a));
+        }
+        add("scale", format!("(memq {} (list 0 {} 2))", a, b));
+        add("scale", format!("(memv {} (list 0 {} 2))", b, a));
+        add("scale", format!("(equal? (list 1 (list {} 2)) (list 1 (list {} 2)))", a, b));
+    }
     out
 }
 
@@ -338,7 +371,7 @@ pub fn run(ctx: &Ctx) -> i32 {
             tier: ctx.tier_name(),
             seed: ctx.seed,
             exhaustive: true,
-            rule: "every list-library procedure on every tuple of its argument domain (all proper lists up to the length bound over {1 2 a}, nested and improper variants, non-lists; all indices -1..len+1; ticking procedure arguments), all two-level compositions of 10 list functions, and a ladder of lengths; distinct = distinct (procedure, observation) pairs".into(),
+            rule: "every list-library procedure on every tuple of its argument domain (all proper lists up to the length bound over {1 2 a}, nested and improper variants, non-lists; all indices -1..len+1; ticking procedure arguments), all two-level compositions of 10 list functions, a ladder of lengths, lists of distinct elements of every length N <= 130 (thorough 300) with every procedure at the positions around the end, and pairs of values of different types with coinciding spelling under every equivalence / search; distinct = distinct (procedure, observation) pairs".into(),
             bounds: json!({"cases": cs.len(), "max_list_length": if ctx.thorough() { 4 } else { 3 }, "ladder": if ctx.thorough() { json!([12,100,1000,3000]) } else { json!([12,100,1000]) }}),
             assumptions: vec!["refsem list functions written from R7RS 6.4 (folds: minischeme argument order); an error of any kind is accepted where the reference raises one".into()],
             wall_s: ctx.elapsed(),
